@@ -37,6 +37,13 @@ class Engine(BaseEngine):
         rep = g.new_event(kind=10000, pk=AUTHORS[1], created=500, tags=[])
         rep2 = g.new_event(kind=10000, pk=AUTHORS[1], created=600, tags=[])
         pool += [rep, rep2]
+        # a victim event and a foreign deletion request naming it (and an own target first)
+        victim = g.new_event(kind=1, pk=AUTHORS[2], created=300, tags=[])
+        victim["content"] = b"victim"
+        own = g.new_event(kind=1, pk=AUTHORS[3], created=301, tags=[])
+        foreign_del = g.new_event(kind=5, pk=AUTHORS[3], created=400,
+                                  tags=[[b"e", own["id"].hex().encode()], [b"e", victim["id"].hex().encode()]])
+        race = sub.random() < 0.35
         progs = []
         for t in range(nthreads):
             ops = []
@@ -55,6 +62,10 @@ class Engine(BaseEngine):
                     ff = {"ids": [], "authors": [], "kinds": [], "tags": [], "since": None, "until": None, "limit": None}
                     ff.update(f)
                     ops.append("query %s L0 n:1 n:0 n:0 %s" % (C.t_filter(ff), C.tn(g.now)))
+            if race and t == 0:
+                ops.insert(sub.randrange(len(ops) + 1), "store " + C.t_event(victim))
+            if race and t == 1:
+                ops.insert(sub.randrange(len(ops) + 1), "store " + C.t_event(foreign_del))
             progs.append(ops)
         obs = "obs %s %s" % (C.tl(C.tb(i) for i in g.ids), C.tl("%s %s %s" % (C.tn(k), C.tb(a), C.tb(d)) for k, a, d in g.addrs))
         seed = sub.getrandbits(40)
